@@ -169,6 +169,9 @@ func GHASH(H []byte, A []byte, C []byte) (X []byte) {
 	copy(Cn[:], C[(n-1)*BlockSize:])
 	Cn = append(Cn, zeros...)
 	copy(X[(m+n)*BlockSize:(m+n)*BlockSize+BlockSize], multiplication(addition(X[(m+n-1)*BlockSize:(m+n-1)*BlockSize+BlockSize], Cn), H))
+	if len(C) == 0 { // no ciphertext block: X is carried over unchanged, not multiplied by H once more
+		copy(X[(m+n)*BlockSize:(m+n)*BlockSize+BlockSize], X[(m+n-1)*BlockSize:(m+n-1)*BlockSize+BlockSize])
+	}
 
 	//i=m+n+1
 	var lenAB []byte
